@@ -149,3 +149,14 @@ def run(model: Model, rep: Report) -> None:
     padded = "self.linesize" in arg and any(k in arg for k in (".ljust(", "+b'\\x00'*", "+bytes(")) or any("self.linesize" in unparse(n) and ("ljust" in unparse(n) or "b'\\x00' *" in unparse(n)) for n in walk_no_nested(wl2.node) if isinstance(n, ast.Assign))
     presized = "truncate(" in unparse(model.func(I + "BMPWriter.__init__").node)
     r9.check(padded or presized, site(wl2), wl2.qualname, "write_line pads the row to self.linesize (or the file is pre-sized)", why=f"row written as `{arg}`: the row stored last in the file (the top image row) lacks its padding bytes, so the file is up to 3 bytes shorter than bfSize/biSizeImage say and strict readers report truncation")
+    # ---------------------------------------------------------------- R10: the image item carries the stream and its own dictionary's geometry
+    r10 = rep.rule("C18-R10", "BIND", "LTImage takes name, stream, size (Width, Height), mask flag, bits (default 1) and colour space (as a list) from the image's own dictionary; the layout analyzer wraps the stream it was given", 3)
+    li = model.func("pdfminer.layout.LTImage.__init__")
+    sl = "".join(unparse(li.node).split())
+    r10.check("self.name=name" in sl and "self.stream=stream" in sl and "self.srcsize=(stream.get_any(('W','Width')),stream.get_any(('H','Height')))" in sl and "self.imagemask=stream.get_any(('IM','ImageMask'))" in sl and "self.bits=stream.get_any(('BPC','BitsPerComponent'),1)" in sl and "self.colorspace=stream.get_any(('CS','ColorSpace'))" in sl and "ifnotisinstance(self.colorspace,list):self.colorspace=[self.colorspace]" in sl, site(li), li.qualname, "fields bound from the abbreviated or full dictionary keys", why="LTImage.__init__ changed")
+    ri = model.func("pdfminer.converter.PDFLayoutAnalyzer.render_image")
+    sr = "".join(unparse(ri.node).split())
+    r10.check("item=LTImage(name,stream,(self.cur_item.x0,self.cur_item.y0,self.cur_item.x1,self.cur_item.y1))" in sr and sr.endswith("self.cur_item.add(item)"), site(ri), ri.qualname, "render_image wraps (name, stream) with the enclosing figure's box and adds it to that figure", why="changed")
+    ei2 = model.func(PI + "PDFPageInterpreter.do_Do")
+    sd = "".join(unparse(ei2.node).split()).replace("('Height'inxobj)", "'Height'inxobj")
+    r10.check("elifsubtypeisLITERAL_IMAGEand'Width'inxobjand'Height'inxobj:self.device.begin_figure(xobjid,(0,0,1,1),MATRIX_IDENTITY)self.device.render_image(xobjid,xobj)self.device.end_figure(xobjid)" in sd, site(ei2), ei2.qualname, "an image XObject is rendered inside a unit figure named after the XObject, with the XObject's own stream", why="image branch of do_Do changed")
